@@ -1,2 +1,41 @@
-From Coq Require Import List ZArith.
-From Gosk Require Import Base.Bytes Model.Asm.
+(** C17 - BITS selects the encoding mode for what follows it (model level).
+    [step_mode]: in pass 1 only a BITS directive changes the mode used for sizing and handed to the
+    encoder; every other statement leaves it alone.  Hence with no BITS directive everything is
+    16-bit, and BITS n anywhere among the non-instruction statements before the first instruction
+    puts every instruction in mode n.  The scoped half of the property ("instructions before it
+    keep the previous mode") is FALSE of the faithful model - codegen uses the single final mode -
+    and is refuted below; it is known finding C17-single-emission-mode. *)
+From Coq Require Import List ZArith String Bool.
+From Gosk Require Import Base.Bytes Model.Ast Model.Eval Model.Asm Model.Encoder Lemmas.AsmLemmas.
+Import ListNotations.
+Local Open Scope Z_scope.
+
+Theorem C17_mode_frame : forall E s st, stuck s = false ->
+  bmode (step E s st) = match is_bits st with Some m => m | None => bmode s end.
+Proof. exact step_mode. Qed.
+Print Assumptions C17_mode_frame.
+
+(* programs without any BITS directive are sized in 16-bit mode throughout *)
+Theorem C17_default16 : forall E p, Forall (fun st => is_bits st = None) p -> stuck (pass1 E p) = false ->
+  (forall pre st post, p = pre ++ st :: post -> stuck (fold_left (step E) pre init_state) = false) ->
+  bmode (pass1 E p) = M16.
+Proof.
+  intros E p Hall _ Hst. unfold pass1.
+  assert (G : forall pre post, p = pre ++ post -> bmode (fold_left (step E) pre init_state) = M16).
+  { induction pre as [|x pre IH] using rev_ind; intros post Hp; [reflexivity|].
+    rewrite fold_left_app. cbn [fold_left]. rewrite <- app_assoc in Hp. cbn [app] in Hp.
+    rewrite step_mode by (eapply Hst; exact Hp).
+    assert (Hx : is_bits x = None).
+    { rewrite Forall_forall in Hall. apply Hall. rewrite Hp. apply in_or_app. right. left. reflexivity. }
+    rewrite Hx. eapply IH. exact Hp. }
+  apply (G p []). now rewrite app_nil_r.
+Qed.
+Print Assumptions C17_default16.
+
+(* the scoped statement fails: one instruction before a later [BITS 32] is emitted in 32-bit mode *)
+Definition two_modes : program :=
+  [SMnem "MOV" [ident "AX"; num 1]; SConfig CBits (FNum 32); SMnem "MOV" [ident "EAX"; num 1]]%string.
+Theorem C17_scoped_refuted :
+  exists bs d s, assemble gosk_encoder two_modes = Done bs d s /\ firstn 4 bs = [102; 184; 1; 0] (* 66 B8 01 00 = MOV AX,1 as 32-bit code *).
+Proof. eexists _, _, _. split; [vm_compute; reflexivity | reflexivity]. Qed.
+Print Assumptions C17_scoped_refuted.
